@@ -41,9 +41,9 @@ G1, G2 = 0.3, -1.234
 
 
 def angles(tier):
-    A = [0.0, PI / 2, PI, -PI, 2 * PI, G1, G2]
+    A = [0.0, PI / 2, PI, -PI, 2 * PI, G1, G2, 0.789, 2.718, -0.456, 1.912, 7.0, -9.5]
     if tier != "quick":
-        A += [3 * PI / 2, -2 * PI, 4 * PI, 2 * PI + G1, 4 * PI + G1, 1e-8, 7.0, -9.5, 0.789, 2.718]
+        A += [3 * PI / 2, -2 * PI, 4 * PI, 2 * PI + G1, 4 * PI + G1, 1e-8, -2.345, 0.111, 4 * PI - 1e-3, 13.0]
     A += [k * PI / 4 for k in range(-8, 9)]
     A += [1e-3, 1e-5, 2 * PI - 1e-3, -2 * PI + 1e-3]
     # domain-correction boundaries of theta = -phi/2 at odd multiples of pi/4, and near misses of the exact pi/8 branch
@@ -207,7 +207,11 @@ def _ct_once(word, eps, method, kw):
         return ("types", bn, None)
     if [type(m).__name__ for m in new.measurements] != ["ExpectationMP"]:
         return ("measurements-changed", [type(m).__name__ for m in new.measurements], None)
-    U = XS.product(ops_in, wires)
+    import numpy as np
+
+    U = np.eye(4, dtype=complex)
+    for n_, p_, w_ in (CT_ALPHA[l] for l in word):
+        U = XS._embed(RG.matrix(n_, p_), w_, 2) @ U
     V = XS.product(new.operations, wires)
     d = XC.dist_up_to_phase(U, V)
     nonct = [l for l in word if CT_ALPHA[l][1] and not (CT_ALPHA[l][0] in ("RZ", "PhaseShift") and _is_clifford_t_angle("RZ", CT_ALPHA[l][1][0]))]
@@ -283,7 +287,7 @@ def run(ctx):
         names = ["RZ", "RX", "Rot"] if q else sorted(SK_OPS)
         specs = [{"k": "sk", "op": n, "angle": a, "eps": e} for n in names for a in Ask for e in Esk]
         specs += [{"k": "sk", "op": "RZ", "angle": G1, "eps": 1e-1, "wire": "b"},
-                  {"k": "sk", "op": "RY", "angle": G2, "eps": 1e-1, "kw": {"basis_set": ["H", "T"], "basis_length": 8}}]
+                  {"k": "sk", "op": "RY", "angle": G2, "eps": 1e-1, "kw": {"basis_set": ["H", "S", "T", "Adjoint(T)"], "basis_length": 8}}]
         ctx.enumerate(specs, fn="check_sk", axis="sk_decomposition", chunk=2)
     if only in (None, "ct"):
         letters = ["H0", "T0", "CNOT01", "RZ0", "RX1", "S1"] if q else sorted(CT_ALPHA)
